@@ -311,15 +311,23 @@ func (s *simReplStorage) ListPipelines(ctx context.Context) (*paginate.Cursor[le
 	return &paginate.Cursor[ledger.Pipeline]{PageSize: len(ps), Data: ps}, nil
 }
 
-func (s *simReplStorage) GetPipeline(ctx context.Context, id string) (*ledger.Pipeline, error) {
+func (s *simReplStorage) GetPipeline(ctx context.Context, id string) (out *ledger.Pipeline, err error) {
+	// Called under the Manager's lock this never parks (DESIGN 3.7a). Called OUTSIDE of it - which the unchanged
+	// code only does for the plain GET of a pipeline - the answer travels back to a caller that holds nothing:
+	// other requests may run before it goes on (for instance before it takes the lock).
+	defer func() {
+		if m := s.ww.currentManager(); err == nil && m != nil && !m.SimLockHeld() && taskKeyOf(ctx) != "" {
+			s.ww.r.w.probe("pipeline_read_outside_the_manager_lock")
+			s.ww.r.w.Yield(ctx, "worker.GetPipeline:reply", id)
+		}
+	}()
 	if st, rctx, ok := s.realSys(ctx); ok {
 		if s.fenced() {
 			return nil, errSessionDead
 		}
 		return st.GetPipeline(rctx, id)
 	}
-	var out *ledger.Pipeline
-	err := s.quiet(ctx, func(sess *Session) error {
+	err = s.quiet(ctx, func(sess *Session) error {
 		row, _ := sess.get(pipelineKey(id)).(*ledger.Pipeline)
 		if row == nil {
 			return sql.ErrNoRows
@@ -328,6 +336,13 @@ func (s *simReplStorage) GetPipeline(ctx context.Context, id string) (*ledger.Pi
 		return nil
 	})
 	return out, err
+}
+
+// currentManager: the Manager of the live incarnation.
+func (ww *workerWorld) currentManager() *replication.Manager {
+	ww.mu.Lock()
+	defer ww.mu.Unlock()
+	return ww.manager
 }
 
 func (s *simReplStorage) CreatePipeline(ctx context.Context, pipeline ledger.Pipeline) error {
